@@ -110,12 +110,12 @@ static void syn_render(struct syn_desc *d)
     if (i) sb_putc(&b, ' ');
     if (l->type >= 0) sb_printf(&b, "%s:", syn_type_name(l->type));
     sb_printf(&b, "%u", l->arity);
-    if (l->memory && l->type == HWLOC_OBJ_NUMANODE) sb_printf(&b, "(memory=%llu)", l->memory);
+    if (l->type == HWLOC_OBJ_NUMANODE && (l->memory || l->mscache)) { sb_putc(&b, '('); if (l->memory) sb_printf(&b, "memory=%llu", l->memory); if (l->memory && l->mscache) sb_putc(&b, ' '); if (l->mscache) sb_printf(&b, "memorysidecachesize=%llu", l->mscache); sb_putc(&b, ')'); }
     if (l->size) sb_printf(&b, "(size=%llu)", l->size);
     if (l->indexes) sb_printf(&b, "(indexes=%s)", l->indexes);
     for (int k = 0; k < l->attached_numa; k++) {
       sb_puts(&b, " [numa");
-      if (l->memory && l->type != HWLOC_OBJ_NUMANODE) sb_printf(&b, "(memory=%llu)", l->memory);
+      if (l->type != HWLOC_OBJ_NUMANODE && (l->memory || l->mscache)) { sb_putc(&b, '('); if (l->memory) sb_printf(&b, "memory=%llu", l->memory); if (l->memory && l->mscache) sb_putc(&b, ' '); if (l->mscache) sb_printf(&b, "memorysidecachesize=%llu", l->mscache); sb_putc(&b, ')'); }
       sb_putc(&b, ']');
     }
   }
@@ -210,6 +210,17 @@ uint64_t univ_syn_enumerate(int scope, syn_cb cb, void *ctx)
         memset(&d, 0, sizeof(d)); d.nlevels = 4;
         d.lv[0].type = HWLOC_OBJ_PACKAGE; d.lv[0].arity = 2; d.lv[1].type = HWLOC_OBJ_NUMANODE; d.lv[1].arity = 2; d.lv[2].type = HWLOC_OBJ_CORE; d.lv[2].arity = 2;
         d.lv[3].type = HWLOC_OBJ_PU; d.lv[3].arity = 2; d.lv[3].indexes = NUM[i];
+        syn_emit(&g, &d);
+      }
+    }
+    /* memory-side caches in front of the NUMA nodes: sizes below and above 32 bits */
+    {
+      static const unsigned long long MSC[] = { 1ULL << 20, 3ULL << 30, 6ULL << 30, 16ULL << 30, (1ULL << 32) + 4096 };
+      for (unsigned i = 0; i < sizeof(MSC) / sizeof(MSC[0]); i++) for (int shape = 0; shape < 3; shape++) {
+        memset(&d, 0, sizeof(d)); d.nlevels = 3;
+        if (shape == 0) { d.lv[0].type = HWLOC_OBJ_NUMANODE; d.lv[0].arity = 2; d.lv[0].memory = 1ULL << 30; d.lv[0].mscache = MSC[i]; }
+        else { d.lv[0].type = HWLOC_OBJ_PACKAGE; d.lv[0].arity = 2; d.lv[0].attached_numa = shape; d.lv[0].memory = shape == 1 ? (1ULL << 30) : 0; d.lv[0].mscache = MSC[i]; }
+        d.lv[1].type = HWLOC_OBJ_CORE; d.lv[1].arity = 2; d.lv[2].type = HWLOC_OBJ_PU; d.lv[2].arity = 1;
         syn_emit(&g, &d);
       }
     }
